@@ -63,6 +63,23 @@ def gen_cases(rng, tier, info):
         for i in (20127, 65001):
             cmds.append("(cp_decode %d (%s))" % (i, " ".join(map(str, b))))
     cases.append(Case("model-codecs", cmds))
+    # single-byte pages: the model carries encoding_rs' own index tables (GenSingleByte.v); compared EXHAUSTIVELY with the
+    # implementation: every byte value through decode, and every code point of the blocks any of the tables draws from
+    # (plus unrepresentable ones) through encode
+    MULTI = {932, 936, 949, 950, 951, 65001, 20127}
+    blocks = list(range(0x80, 0x27C0)) + [0xF8FF, 0xFB01, 0xFB02, 0xFFFD, 0xFFFF, 0x10000, 0x3000, 0x4E00]
+    n_sb = 0
+    for i in IDS:
+        if i in MULTI:
+            continue
+        cmds = ["(cp_decode %d (%s))" % (i, " ".join(map(str, range(256))))]
+        for k in range(0, len(blocks), 1024):
+            cmds.append("(cp_encode %d (%s))" % (i, " ".join(map(str, blocks[k:k + 1024]))))
+        cmds.append("(cp_encode %d %s)" % (i, X.enc_str("a" * 1023 + SAMPLE[i] + "\u20ac" * 3)))
+        cmds.append("(cp_decode %d (239 187 191 255 254 97))" % i)
+        n_sb += 1
+        cases.append(Case("single-byte-%d" % i, cmds, ("sb",)))
+    info["single_byte_pages_on_the_model"] = n_sb
     info.update({"pages": len(IDS), "scalars_per_page": 1112064, "boundary_and_roundtrip_strings": n_b, "exhaustive": True,
                  "exhaustive_note": "all scalar values x all 26 pages (per-character law and reference wiring) and all 1/2-byte sequences are enumerated completely"})
     return cases
@@ -119,6 +136,22 @@ def oracle(ctx):
                     cls = None
                     bad.append({"what": "decode(encode(%r)) differs on code page %d although every character is representable" % (s[:20], sx[1]),
                                 "cmds": [cmd], "impl": o, "cls": cls})
+            elif sx[0] == "cp_decode" and sx[1] in (20127, 65001) and o.startswith("("):
+                # independent reading of the two pages' names: US-ASCII is bytewise (one U+FFFD per byte >= 0x80),
+                # UTF-8 is the standard decoder with replacement, and neither looks at byte order marks
+                data = bytes(sx[2])
+                want = [b if b < 128 else 0xFFFD for b in data] if sx[1] == 20127 else [ord(ch) for ch in data.decode("utf-8", "replace")]
+                got = X.parse_sx(o)
+                if got != want:
+                    bad.append({"what": "code page %d decodes bytes %s to %s; %s gives %s" % (sx[1], list(data), got,
+                                "US-ASCII (bytewise)" if sx[1] == 20127 else "UTF-8", want), "cmds": [cmd], "impl": o})
+            elif sx[0] == "cp_encode" and sx[1] in (20127, 65001) and o.startswith("("):
+                text = sx[2]
+                if all(c < 0xD800 or 0xDFFF < c < 0x110000 for c in text):
+                    want = [c if c < 128 else 63 for c in text] if sx[1] == 20127 else list("".join(map(chr, text)).encode("utf-8"))
+                    got = X.parse_sx(o)
+                    if got != want:
+                        bad.append({"what": "code page %d encodes %s to %s, expected %s" % (sx[1], text[:12], got[:24], want[:24]), "cmds": [cmd], "impl": o})
             elif sx[0] == "cp_from_id":
                 pass
     # identifier lookup: every table id maps to itself, 0 to UTF-8, nothing else resolves
